@@ -117,7 +117,7 @@ def e_cons(k):
         return "(CPk %s %s)" % (lst(k["cols"], e_ident), e_cname(k["name"]))
     if k["k"] == "fk":
         return "(CFk %s %s %s %s %s %s %s %s %s)" % (
-            lst(k["cols"], e_ident), lst(k["refcols"], lambda r: "(mkRef %s %s)" % (S(r["spec"]), opt(r["named"], S))), e_cname(k["name"]), opt(k["onupdate"], S), opt(k["ondelete"], S),
+            lst(k["cols"], e_ident), lst(k["refcols"], lambda r: "(mkRef %s %s)" % (lst(r["tokens"], S), opt(r["named"], S))), e_cname(k["name"]), opt(k["onupdate"], S), opt(k["ondelete"], S),
             opt(k["initially"], S), opt(k["deferrable"], b), b(k["use_alter"]), opt(k["match"], S))
     if k["k"] == "uq":
         return "(CUq %s %s %s %s)" % (lst(k["cols"], e_ident), e_cname(k["name"]), opt(k["deferrable"], b), opt(k["initially"], S))
@@ -394,20 +394,24 @@ def key_of(c):
 
 
 def ref_col(f, namespace_metadata):
-    """the referred column of a ForeignKey: ForeignKey._get_colspec() (by KEY) and, where the namespace MetaData knows the
-    table (the lookup _fk_colspec makes), the same spec with the column's database name"""
+    """the referred column of a ForeignKey: the tokens of ForeignKey._get_colspec() (which names the column by its KEY) and,
+    where the namespace MetaData knows the table under the full name made of all the tokens but the last (the lookup
+    _fk_colspec is meant to make), the column's database name.  Without a namespace MetaData (the operation objects the
+    executed text creates) the spec is one opaque token."""
     spec = f._get_colspec()
+    if namespace_metadata is None:
+        return {"tokens": [spec], "named": None}
+    if namespace_metadata.schema is not None:
+        raise OutsideUniverse("MetaData(schema=...)")
     tokens = spec.split(".")
     table_fullname, colname = ".".join(tokens[:-1]), tokens[-1]
     named = None
-    if namespace_metadata is not None and not f.link_to_name and f.parent is not None and f.parent.table is not None \
+    if not f.link_to_name and f.parent is not None and f.parent.table is not None \
             and table_fullname in namespace_metadata.tables:
         col = namespace_metadata.tables[table_fullname].c.get(colname)
         if col is not None:
-            named = "%s.%s" % (table_fullname, col.name)
-    if namespace_metadata is not None and namespace_metadata.schema is not None:
-        raise OutsideUniverse("MetaData(schema=...)")
-    return {"spec": spec, "named": named}
+            named = str(col.name)
+    return {"tokens": tokens, "named": named}
 
 
 def a_column(c):
@@ -710,13 +714,28 @@ def sql_of(dialect, fn, nc):
     return ("ok", norm_sql(buf.getvalue()))
 
 
-def exec_env(cfg):
+def exec_env(cfg, import_lines=()):
+    """the namespace of a generated revision file as far as the rendered body can see it: the two configured module names
+    and what the collected import lines bind -- nothing else (a dialect module that is used without having been imported
+    is a NameError here exactly as in the file)"""
     import sqlalchemy as sa
     from alembic import op as opmod
-    from sqlalchemy.dialects import postgresql, mysql, mssql, oracle, sqlite
-    g = {cfg["sa"]: sa, cfg["op"]: opmod, "postgresql": postgresql, "mysql": mysql, "mssql": mssql, "oracle": oracle,
-         "sqlite": sqlite}
+    g = {}
+    for line in import_lines:
+        exec(line, g)
+    g[cfg["sa"]] = sa
+    g[cfg["op"]] = opmod
     return g
+
+
+def import_names(import_lines):
+    """the observable form of autogen_context.imports: the dialect name of a  from sqlalchemy.dialects import <d>  line,
+    any other line as itself"""
+    out = []
+    for line in import_lines:
+        m = re.fullmatch(r"from sqlalchemy\.dialects import (\w+)", line)
+        out.append(m.group(1) if m else line)
+    return sorted(set(out))
 
 
 def invoke_direct(o, container_ops, batch):
@@ -737,18 +756,33 @@ def invoke_direct(o, container_ops, batch):
             o.invoke(x)
 
 
-def render_for(real_ops, cfg, dialect=None):
-    from alembic.autogenerate import render_python_code
+def render_with_imports(real_ops, cfg, dialect=None):
+    """(upgrade body, import lines) the way the revision command produces them: render._render_python_into_templatevars
+    over a MigrationScript, under an AutogenContext with the configured prefixes.  dialect None: the DefaultDialect context
+    that render_python_code uses; otherwise a migration context of that dialect (what env.py gives autogenerate)."""
+    from alembic.autogenerate.api import AutogenContext
+    from alembic.autogenerate import render
     from alembic.operations import ops
     from alembic.runtime.migration import MigrationContext
-    kw = {}
-    if dialect is not None:
-        kw["migration_context"] = MigrationContext.configure(dialect_name=dialect)
-    return render_python_code(ops.UpgradeOps(ops=list(real_ops)), render_as_batch=cfg["batch"],
-                              alembic_module_prefix=cfg["op"] + ".", sqlalchemy_module_prefix=cfg["sa"] + ".", **kw)
+    from sqlalchemy.engine.default import DefaultDialect
+    if dialect is None:
+        mc = MigrationContext.configure(dialect=DefaultDialect())
+    else:
+        mc = MigrationContext.configure(dialect_name=dialect)
+    opts = {"sqlalchemy_module_prefix": cfg["sa"] + ".", "alembic_module_prefix": cfg["op"] + ".", "render_item": None,
+            "render_as_batch": cfg["batch"], "user_module_prefix": None}
+    ac = AutogenContext(mc, opts=opts)
+    script = ops.MigrationScript("verif", ops.UpgradeOps(ops=list(real_ops)), ops.DowngradeOps(ops=[]))
+    targs = {}
+    render._render_python_into_templatevars(ac, script, targs)
+    return targs["upgrades"], [l for l in str(targs["imports"]).split("\n") if l]
 
 
-def run_both(code, cfg, real_ops, nc, dialects=DIALECTS, per_dialect_render=False):
+def render_for(real_ops, cfg, dialect=None):
+    return render_with_imports(real_ops, cfg, dialect)[0]
+
+
+def run_both(code, cfg, real_ops, nc, dialects=DIALECTS, per_dialect_render=False, imports=()):
     """returns (captured operation objects of the first dialect or None, sql_same, details).
     per_dialect_render: render with a migration context of the target dialect (as autogenerate does)"""
     global _RECORD, _RECORD_ONLY
@@ -757,7 +791,7 @@ def run_both(code, cfg, real_ops, nc, dialects=DIALECTS, per_dialect_render=Fals
     details = {}
     # the operation objects the text creates: one dialect-independent run in which invoke only records
     captured = []
-    g0 = exec_env(cfg)
+    g0 = exec_env(cfg, imports)
 
     def record(o):
         global _RECORD, _RECORD_ONLY
@@ -773,15 +807,15 @@ def run_both(code, cfg, real_ops, nc, dialects=DIALECTS, per_dialect_render=Fals
             continue        # batch on sqlite recreates the table and needs a live reflected table: not an as_sql run
         direct = sql_of(dn, lambda o: invoke_direct(o, real_ops, cfg["batch"]), nc)
         rec = []
-        g = exec_env(cfg)
-        the_code = code
+        the_code, the_imports = code, imports
         if per_dialect_render:
             try:
                 with warnings.catch_warnings():
                     warnings.simplefilter("ignore")
-                    the_code = render_for(real_ops, cfg, dn)
+                    the_code, the_imports = render_with_imports(real_ops, cfg, dn)
             except Exception as e:
-                the_code = "raise RuntimeError('render failed: %s')" % type(e).__name__
+                the_code, the_imports = "raise RuntimeError('render failed: %s')" % type(e).__name__, ()
+        g = exec_env(cfg, the_imports)
 
         def run(o):
             global _RECORD
@@ -791,7 +825,9 @@ def run_both(code, cfg, real_ops, nc, dialects=DIALECTS, per_dialect_render=Fals
             finally:
                 _RECORD = None
         via = sql_of(dn, run, nc)
-        if direct != via and not (direct[0] == "exc" and via[0] == "exc"):      # both refuse loudly: no DDL on either path
+        # both refuse loudly with the same class of error: no DDL on either path (a NameError of the rendered text where
+        # the operation objects fail to compile is a difference)
+        if direct != via:
             same = False
             details[dn] = {"direct": direct[1][:400], "rendered": via[1][:400]}
     return captured, same, details
